@@ -9,6 +9,7 @@ import (
 	"math/rand"
 	"os"
 	"path/filepath"
+	"regexp"
 	"strings"
 
 	"gmverif/internal/fw"
@@ -242,6 +243,9 @@ func c10RunRace(r *fw.Run, prop string, progs []*Prog, procs []string, classify 
 			q := *p
 			q.ID = fmt.Sprintf("%s-p%s", p.ID, gmp)
 			q.Mode = map[string]string{"yield": fmt.Sprint(uint64(r.Seed)*7919 + uint64(pi) + 1)}
+			for k, v := range p.Mode {
+				q.Mode[k] = v
+			}
 			batch = append(batch, &q)
 		}
 		o := e1Opts{Bin: raceBin(), Env: []string{"GOMAXPROCS=" + gmp, "GORACE=halt_on_error=0 exitcode=0 log_path=" + prefix}}
@@ -258,6 +262,14 @@ func c10RunRace(r *fw.Run, prop string, progs []*Prog, procs []string, classify 
 			if strings.Contains(rep.Text, "(*Interp).Interrupt()") {
 				// the worker's own watchdog interrupting a hung evaluation (that run is inconclusive anyway)
 				r.Count("race_reports_from_watchdog_interrupt", 1)
+				continue
+			}
+			if raceWithFinishedGoroutine(rep.Text) {
+				// one of the two goroutines had already finished when the other made its access: the accesses
+				// were not concurrent. Seen when a goroutine not started by the interpreter (timer, worker of
+				// compiled code) inherits the runtime record of a dead one through the reuse of its runtime.g
+				// address, which is ordered by the scheduler but invisible to the race detector.
+				r.Count("race_reports_with_finished_goroutine_skipped", 1)
 				continue
 			}
 			if !rep.Gomacro {
@@ -296,6 +308,17 @@ func c10Classify(rep raceReport) string {
 		}
 	}
 	return ""
+}
+
+var raceAccessRe = regexp.MustCompile(`(?m)^(?:Read|Write|Previous read|Previous write|Atomic read|Atomic write|Previous atomic read|Previous atomic write) at 0x[0-9a-f]+ by goroutine (\d+):`)
+
+func raceWithFinishedGoroutine(text string) bool {
+	for _, m := range raceAccessRe.FindAllStringSubmatch(text, -1) {
+		if strings.Contains(text, "Goroutine "+m[1]+" (finished)") {
+			return true
+		}
+	}
+	return false
 }
 
 // repoLine returns the source line of a "dir/file.go:line" frame below /repo
